@@ -704,8 +704,16 @@ impl Optimizer {
                 if let Some(ref edge_var) = expand.edge_variable {
                     introduced_vars.push(edge_var);
                 }
+                // - The path length column the translators read for length(p)
+                let path_length_var = expand
+                    .path_alias
+                    .as_ref()
+                    .map(|alias| format!("_path_length_{alias}"));
                 if let Some(ref path_alias) = expand.path_alias {
                     introduced_vars.push(path_alias);
+                }
+                if let Some(ref path_length_var) = path_length_var {
+                    introduced_vars.push(path_length_var);
                 }
 
                 // Check if predicate uses any variables introduced by this expand
@@ -791,6 +799,10 @@ impl Optimizer {
                 vars.insert(expand.to_variable.clone());
                 if let Some(edge_var) = &expand.edge_variable {
                     vars.insert(edge_var.clone());
+                }
+                if let Some(path_alias) = &expand.path_alias {
+                    vars.insert(path_alias.clone());
+                    vars.insert(format!("_path_length_{path_alias}"));
                 }
                 Self::collect_output_variables_recursive(&expand.input, vars);
             }
